@@ -46,7 +46,9 @@ ProposeNext(ds, now, newid, hash, slash, fee) ==
   ELSE RoundNext(ds, now, newid, Latest(ds, hash))
 
 \* ---------------- AddFeeToDispute ----------------
-AddFeeOk(d, now, amt) == ~IsZero(amt) /\ ~(d.endn \prec now) /\ d.feetotal \prec d.slash
+\* (d.status = PREVOTE was missing in the code - F-24, found by TLC on this model as a violation of ExecutionIsFinal: an
+\*  executed round voted against the dispute has slash > feetotal again and could be "funded" a second time)
+AddFeeOk(d, now, amt) == ~IsZero(amt) /\ ~(d.endn \prec now) /\ d.feetotal \prec d.slash /\ d.status = PREVOTE
 AddFeeNext(d, now, amt) ==
   LET ft == d.feetotal ++ NMin(amt, d.slash -- d.feetotal) IN
   IF ft = d.slash THEN [d EXCEPT !.feetotal = ft, !.endn = now ++ ThreeDaysNs, !.status = VOTING, !.vote = StartVote(now)]
